@@ -18,11 +18,16 @@ type printer struct {
 	output io.Writer
 	state  printerState
 	last   []byte
+
+	// lastEnd is the source offset at which the last written token ended,
+	// or -1 if the last chunk did not come from the source
+	lastEnd int
 }
 
 func NewPrinter(output io.Writer) *printer {
 	return &printer{
-		output: output,
+		output:  output,
+		lastEnd: -1,
 	}
 }
 
@@ -48,9 +53,30 @@ func endsWithCloseTag(b []byte) bool {
 }
 
 func (p *printer) write(b []byte) {
+	p.writeChunk(b, true)
+}
+
+// writeToken writes the text of a token. Two tokens that were adjacent in the
+// source (e.g. "1and") need no separating space: the source lexed that way.
+func (p *printer) writeToken(t *token.Token) {
+	if len(t.Value) == 0 {
+		return
+	}
+
+	adjacent := t.Position != nil && p.lastEnd >= 0 && t.Position.StartPos == p.lastEnd
+	p.writeChunk(t.Value, !adjacent)
+
+	if t.Position != nil {
+		p.lastEnd = t.Position.EndPos
+	}
+}
+
+func (p *printer) writeChunk(b []byte, separate bool) {
 	if len(b) == 0 {
 		return
 	}
+
+	p.lastEnd = -1
 
 	if p.state == PrinterStateHTML {
 		if !bytes.HasPrefix(b, []byte("<?")) {
@@ -59,7 +85,7 @@ func (p *printer) write(b []byte) {
 		p.state = PrinterStatePHP
 	}
 
-	if p.last != nil && isValidVarName(p.last[len(p.last)-1]) && isValidVarName(b[0]) {
+	if separate && p.last != nil && isValidVarName(p.last[len(p.last)-1]) && isValidVarName(b[0]) {
 		p.output.Write([]byte(" "))
 	}
 
@@ -105,9 +131,9 @@ func (p *printer) printToken(t *token.Token, def []byte) {
 	}
 
 	for _, ff := range t.FreeFloating {
-		p.write(ff.Value)
+		p.writeToken(ff)
 	}
-	p.write(t.Value)
+	p.writeToken(t)
 }
 
 func (p *printer) ifNode(n ast.Vertex, val []byte) []byte {
